@@ -80,6 +80,26 @@ def answer (w : List String) : String :=
     match checkpointSchedule_init mx with
     | .ok (n, r, m) => s!"{n} {r} {match m with | none => "-" | some v => toString v}"
     | .error e => "raise:" ++ errStr e
+  | some "mixedInit" =>
+    match mixed_init (i 1) (i 2) (stOf (w.getD 3 "DISK")) with
+    | .ok (n, r, m, ex, sn, st) => s!"{n} {r} {m} {b01 ex} {sn} {stName st}"
+    | .error e => "raise:" ++ errStr e
+  | some "twoLevelInit" =>
+    match twoLevel_init (i 1) (i 2) (stOf (w.getD 3 "DISK")) (w.getD 4 "maximum") with
+    | .ok (n, r, m, p, b, st, tr) => s!"{n} {r} {m} {p} {b} {stName st} {tr}"
+    | .error e => "raise:" ++ errStr e
+  | some "multistageInit" =>
+    -- the oracle answers with the storage tuple given in the request (what the real allocate_snapshots returned)
+    let orc : Int → Int → Int → String → M (List Int × List StorageType) :=
+      fun _ _ _ _ => pure ([], ((w.getD 5 "").splitOn ",").filter (· ≠ "") |>.map stOf)
+    match multistage_init (i 1) (i 2) (i 3) (w.getD 4 "maximum") orc with
+    | .ok (n, r, m, a, b, st, ex, tr) => s!"{n} {r} {m} {a} {b} {String.intercalate "," (st.map stName)} {b01 ex} {tr}"
+    | .error e => "raise:" ++ errStr e
+  | some "len" => showInt (if w.getD 1 "F" = "F" then forward_len (i 2) (i 3) else reverse_len (i 2) (i 3))
+  | some "contains" =>
+    match (if w.getD 1 "F" = "F" then forward_contains (i 4) (i 2) (i 3) else reverse_contains (i 4) (i 2) (i 3)) with
+    | .ok b => b01 b
+    | .error e => "raise:" ++ errStr e
   | some "uses" =>
     let st := stOf (w.getD 2 "NONE")
     let ob (r : M Bool) : String := match r with | .ok b => b01 b | .error e => "raise:" ++ errStr e
